@@ -9,6 +9,9 @@ Obligations (DESIGN.md 3/C04):
  (d) Log::request_response arithmetic on symbolic part sizes: no overflow.
 Stack exhaustion is outside the claim (needs machine frame sizes)."""
 from appsweep import *
+from mirse.pool import closure_fn as P_closure_fn
+from mirse.engine import Closure, Unsupported
+import re
 import re as _re
 
 
@@ -42,6 +45,9 @@ def case_parse(prog, params):
         data = SymStr.join([S('GET / HTTP/1.1\r\n'), n, S(': '), v, S('\r\n\r\n')])
     elif shape == 'known-header':
         v = SymStr.fresh('hv', P['hv_cap'], cons); sy['hv'] = v
+        data = SymStr.join([S('GET / HTTP/1.1\r\n' + params['name'] + ': '), v, S('\r\n\r\nab')])
+    elif shape == 'numeric-header':
+        v = SymStr.fresh('hv', params['digits'], cons, exact_len=params['digits'], alphabet=[48 + d for d in range(10)]); sy['hv'] = v
         data = SymStr.join([S('GET / HTTP/1.1\r\n' + params['name'] + ': '), v, S('\r\n\r\nab')])
     elif shape == 'line':
         a, b, c_ = P['line_caps']
@@ -166,7 +172,21 @@ def case_skeleton(prog, params):
                 if r == 'sat':
                     res['violations'].append({'key': 'C04:responses-written-%d:%s' % (len(writes), entry), 'text': '%s writes %d responses on one connection' % (entry, len(writes)),
                                               'witness': {'kind': 'skeleton', 'entry': entry, 'request': req.hex(), 'script': io_script(m, io, o), 'app': params['app'], 'expect_writes': 1}})
-    if entry == 'process':
+    if entry == 'job':
+        # the connection job itself: the closure Server::run hands to the pool, with its captures (stream, connection, app)
+        fn = P_closure_fn(prog, r'server::.*::run::\{closure#0\}')
+        if fn is None: raise Unsupported('connection job closure not found in Server::run')
+        caps = {}
+        for blk in fn.blocks.values():
+            for stt in blk:
+                for m_ in re.finditer(r"\('_1', \(\('f', (\d+), (?:'([^']*)'|\"([^\"]*)\")\),?\)\)", repr(stt)): caps[int(m_.group(1))] = m_.group(2) or m_.group(3)
+        vals = []
+        for i in range(max(caps) + 1 if caps else 0):
+            t = caps.get(i, '')
+            vals.append(Opaque('Stream') if 'TcpStream' in t else conn_info(len(req)) if 'ConnectionInfo' in t else Struct('App', ()))
+        res['job_captures'] = [caps.get(i, '?') for i in range(len(vals))]
+        ex.run_fn(fn, [Closure(fn.params[0][1], vals)], st, on_terminal=term)
+    elif entry == 'process':
         ex.run_fn('Server::process', [Opaque('Stream'), conn_info(len(req)), Struct('App', ())], st, on_terminal=term)
     else:
         ex.run_fn('Server::process_request', [Opaque('Stream'), Opaque('SocketAddr', (Opaque('IpAddr', b'127.0.0.1'), Int('u16', 5)))], st, on_terminal=term)
@@ -265,6 +285,8 @@ def main():
         cases.append(dict(ob='parse', shape=shape))
     for name in ('Content-Length', 'Content-Type', 'Range', 'Host'):
         cases.append(dict(ob='parse', shape='known-header', name=name))
+    for digits in (19, 20):
+        cases.append(dict(ob='parse', shape='numeric-header', name='Content-Length', digits=digits))
     for entry in ('execute', 'legacy'):
         for m in P['methods']:
             for n in P['target_caps']:
